@@ -15,6 +15,7 @@ def rwWrites (r : Rep) : List RepOp → Nat
   | op :: ops =>
     (match op with
      | .write off len _ => if r.isOpen && r.inVolume off len && r.mode = .rw then 1 else 0
+     | .cwrite n _ => if r.isOpen && r.mode = .rw then n else 0
      | _ => 0) + rwWrites (r.step op).1 ops
 
 def noSetRev : List RepOp → Prop
@@ -38,6 +39,9 @@ theorem c10_step (r : Rep) (op : RepOp) (h : ∀ n, op ≠ .setRev n) :
       simp only [c, if_false]
       cases hm : r.mode <;> simp [c'.1, c'.2, rwWrites]
   | setRev n => exact absurd rfl (h n)
+  | cwrite n tag =>
+    unfold rwWrites Rep.step
+    cases h1 : r.isOpen <;> cases hm : r.mode <;> simp [rwWrites]
   | read off len =>
     unfold Rep.step rwWrites; simp only [rwWrites]; split <;> simp
   | snap n user => unfold Rep.step rwWrites; simp only [rwWrites]; split <;> (try split) <;> (try split) <;> simp
